@@ -798,8 +798,10 @@ def c20(tier, seed):
                 if idx >= nform: continue
                 f = forms[idx]
             if name in RISKY_OPTIONS: f = SAFE_FOR_RISKY[(i + r) % len(SAFE_FOR_RISKY)]
-            # guarded_min / guarded_max are coupled by design (setting one adjusts the other): only one of them is set per process
-            if (name == "guarded_min" and r % 2 == 0) or (name == "guarded_max" and r % 2 == 1): continue
+            # guarded_min / guarded_max are coupled (min <= max is enforced): in most processes only one of them is set; every 5th process sets both, consistently (see below)
+            if r % 5 != 4 and ((name == "guarded_min" and r % 2 == 0) or (name == "guarded_max" and r % 2 == 1)): continue
+            if r % 5 == 4 and name in ("guarded_min", "guarded_max"):
+                f = str(2000000000 + 7 * r) if name == "guarded_min" else str(3000000000 + 11 * r)     # min above the built-in maximum, max above that: both must be read back
             if "\0" in f: continue
             style = (i + r) % 4
             var = "MIMALLOC_" + name.upper() if style == 0 else "mimalloc_" + name if style == 1 else "Mimalloc_" + name.capitalize() if style == 2 else None
@@ -823,8 +825,7 @@ def c20(tier, seed):
             src = c.meta["expect_src"][name]
             pairs += 1
             raw = src.encode("utf-8", "surrogateescape")
-            if len(raw) > 64:
-                toolong += 1; continue      # longer than the 64-byte value buffer: only memory safety is judged (the process ran under ASan)
+            if len(raw) > 64: toolong += 1      # longer than the 64-byte value buffer: malformed, the default must stay (and the process ran under ASan)
             exp, ok = optref.expected(defaults[vv].get(name, 0), src if all(ord(ch) < 128 for ch in src) else raw.decode("latin1"), bool(o["kib"]), max_alloc)
             if ok: wellformed += 1
             else: malformed += 1
@@ -842,7 +843,7 @@ def c20(tier, seed):
         other.append(_opts_run(exes[vv], {"MIMALLOC_VERBOSE": "1", "MIMALLOC_SHOW_STATS": "1"}, "json"))
     for c in core.run_cases(other): v.add(c)
     allc = base_cases + runs + other
-    cov = {"options_in_table": len(names), "option_value_pairs_checked": pairs, "wellformed_values": wellformed, "malformed_values": malformed, "values_longer_than_64_bytes_memory_safety_only": toolong,
+    cov = {"options_in_table": len(names), "option_value_pairs_checked": pairs, "wellformed_values": wellformed, "malformed_values": malformed, "values_longer_than_the_64_byte_buffer": toolong,
            "value_forms": len(forms), "processes": len(allc), "formatter_calls": core.sum_field(other, "opts", "format_calls"), "buffer_sizes_tried": core.sum_field(other, "opts", "buffer_sizes"),
            "set_get_roundtrips": core.sum_field(allc, "opts", "set_get_roundtrips"), "json_buffer_sizes": core.sum_field(other, "opts", "json_sizes"), "output_calls": core.sum_field(other, "opts", "output_calls"),
            "output_bytes": core.sum_field(other, "opts", "output_bytes"), "variants": variants, "form_samples": OPT_FORMS[:20]}
@@ -852,7 +853,7 @@ def c20(tier, seed):
                         "distinct_nontrivial = distinct environment strings tried (each on every option position it was rotated to)",
                 "samples": [{"env": dict(list(runs[0].env.items())[:6])}, {"forms": forms[len(OPT_FORMS):len(OPT_FORMS) + 5]}]})
     core.write_evidence(prop, tier, seed, "exploration", cov, time.time() - t0, len(v.violations),
-                        ["the reference grammar in vf/optref.py is the documented one (booleans accept any substring of the source's lists; values longer than the 64-byte buffer are judged for memory safety only)",
+                        ["the reference grammar in vf/optref.py is the documented one (booleans are exactly 1/0/true/false/yes/no/on/off or empty; a value longer than the 64-byte buffer is malformed and leaves the default)",
                          "memory safety is decided by AddressSanitizer/UBSan red zones behind exactly sized libc buffers"])
     print("%s %s tier=%s seed=%d: %d processes, %d (option,value) pairs, %d violations, %d harness failures, %.1fs -> exit %d" %
           (prop, "HELD" if rc == 0 else "VIOLATED" if rc == 1 else "INCONCLUSIVE", tier, seed, len(allc), pairs, len(v.violations), len(v.harness), time.time() - t0, rc))
